@@ -278,3 +278,67 @@ Proof.
   rewrite E, tomo_all_accepted. reflexivity.
 Qed.
 Print Assumptions gen_tomo_all_accepted.
+
+(* ------------------------------------------------------------------ _validate_schedule_index, calc_prob_dist *)
+Theorem gen_validate_schedule_index_eq : forall e idx,
+  x_of_fres (gen_validate_schedule_index e idx) =
+  match idx with
+  | PInt z => if ((0 <=? z) && (z <? Z.of_nat (List.length (e_scheds e))))%Z then XPass else XRaise "IndexError"
+  | _ => XRaise "TypeError"
+  end.
+Proof.
+  intros e idx. unfold gen_validate_schedule_index. destruct idx as [|s|z|b|vs|]; try reflexivity.
+  cbn. destruct (0 <=? z)%Z; cbn; [|reflexivity]. destruct (z <? Z.of_nat (List.length (e_scheds e)))%Z; reflexivity.
+Qed.
+Print Assumptions gen_validate_schedule_index_eq.
+(* on a validated experiment, for EVERY argument: TypeError / IndexError for a bad index, ValueError exactly when the
+   schedule refers to a None placeholder, otherwise compose_qoperations receives the referenced objects in reverse order *)
+Theorem gen_calc_prob_dist_eq : forall e idx, valid_exp e ->
+  gen_calc_prob_dist e idx = crun_of (calc_prob_dist_pre e idx).
+Proof.
+  intros e idx He. unfold gen_calc_prob_dist. rewrite gen_validate_schedule_index_eq. unfold calc_prob_dist_pre.
+  destruct idx as [|s|z|b|vs|]; try reflexivity.
+  destruct (0 <=? z)%Z eqn:Z0; cbn [andb]; [|reflexivity].
+  destruct (z <? Z.of_nat (List.length (e_scheds e)))%Z eqn:Z1; [|reflexivity].
+  cbn [pv_int sl_get]. rewrite Z0.
+  apply Z.leb_le in Z0. apply Z.ltb_lt in Z1.
+  destruct (nth_error (e_scheds e) (Z.to_nat z)) as [s|] eqn:N; [|apply nth_error_None in N; lia].
+  rewrite (nth_error_nth _ _ SNonIter N).
+  unfold valid_exp in He. rewrite Forall_forall in He. destruct (He s (nth_error_In _ _ N)) as (t & -> & Hr & _).
+  assert (V : validate_items (e_cfg e) 0 (map raw t) = inl t) by (apply validate_items_inl_iff; auto).
+  rewrite V, cfg_eta.
+  (* either spelling of the loop: appendleft + compose( *targets ), or append + compose( *reversed(targets) ) *)
+  first [ destruct (collect_left_crun (e_cfg e) "ValueError" t) as [C|C]; [exact C|now contradiction C]
+        | destruct (collect_right_crun (e_cfg e) "ValueError" t) as [C|C]; [exact C|now contradiction C] ].
+Qed.
+Print Assumptions gen_calc_prob_dist_eq.
+
+(* ------------------------------------------------------------------ Experiment._validate_type, Experiment.copy *)
+(* passes exactly when every element is None or an object of the expected class; otherwise TypeError *)
+Theorem gen_validate_type_spec : forall l cls,
+  gen_validate_type l cls = if forallb (fun x => negb (elem_truthy x) || elem_isinstance x cls) l then XPass else XRaise "TypeError".
+Proof.
+  intros l cls. unfold gen_validate_type. induction l as [|x l IH]; [reflexivity|].
+  cbn [x_for forallb]. rewrite IH. destruct x as [|c]; cbn; [reflexivity|]. destruct (String.eqb c cls); reflexivity.
+Qed.
+Print Assumptions gen_validate_type_spec.
+(* the abstraction under which __init__ and the setters are translated (lists of objects of the right class or None) is one
+   _validate_type accepts; None placeholders in particular are accepted *)
+Theorem gen_validate_type_passes : forall l cls, Forall (fun x => x = ENone \/ x = EObj cls) l -> gen_validate_type l cls = XPass.
+Proof.
+  intros l cls H. rewrite gen_validate_type_spec.
+  replace (forallb _ l) with true; [reflexivity|]. symmetry. apply forallb_forall. rewrite Forall_forall in H.
+  intros x Hx. destruct (H x Hx) as [->| ->]; cbn; [reflexivity|]. now rewrite String.eqb_refl.
+Qed.
+Print Assumptions gen_validate_type_passes.
+(* copy() of a validated experiment goes through the validating constructor, succeeds, and yields the same lists and schedules *)
+Theorem gen_copy_eq : forall e, valid_exp e -> gen_copy e = (e, XPass).
+Proof.
+  intros e He. unfold gen_copy.
+  destruct (gen_experiment_init_eq (e_scheds e) (Some (c_states (e_cfg e))) (Some (c_povms (e_cfg e))) (Some (c_gates (e_cfg e)))
+              (Some (c_mprocesses (e_cfg e)))) as [E1 E2]. cbv zeta in E1, E2. cbn [or_nil] in E1, E2. rewrite cfg_eta in E1, E2.
+  assert (V : validate_schedules (e_cfg e) (e_scheds e) = VOk) by (now apply experiment_accepts_iff).
+  rewrite V in E1. specialize (E2 V). unfold construct in E2. rewrite V in E2. injection E2 as E2.
+  destruct (gen_experiment_init _ _ _ _ _) as [e' x]. cbn [fst snd] in *. subst. now destruct e.
+Qed.
+Print Assumptions gen_copy_eq.
